@@ -10,6 +10,7 @@ ops (all byte strings in hex, `-` = empty):
          flags ⊆ "raocn" or "-": r = may keep the announcement tag, a = anonymous board, o = open board (ALLPOST copy),
          c = credited, n = not permitted (the request is refused before anything is written)
          lines = "." (none) or comma separated hex lines
+  timezone <zone name>   TIME_LOCATION set through the ini file + types.InitConfig; prints the zone in effect
   config <5 bits>    HAVE_ANONYMOUS ALLOW_FREE_TN_ANNOUNCE USE_POST_ENTROPY QUERY_ARTICLE_URL USE_AID_URL for the posts
                      that follow (reset restores the defaults of the source)
   load   <session> <userID>                    keep a freshly loaded user record under a session name
@@ -50,6 +51,7 @@ structure DSt where
   utab : List (List Nat × Nat × List Nat)
   sessions : List Session := []
   cfg : Cfg := {}
+  tz : TZ := ⟨"Asia/Taipei", "Asia/Taipei"⟩
 
 def parseReset (toks : List String) : Option DSt :=
   toks.foldlM (init := ({ st := { boards := [], users := [], postLog := C05.FS.absent }, utab := [] } : DSt)) fun d t =>
@@ -167,6 +169,13 @@ def stepC09 (st : Option DSt) (ws : List String) : Option DSt × String :=
     match parseReset toks with
     | some s => (some s, "ok")
     | none => (st, "bad-op")
+  | ["timezone", z] =>
+    match st, parseHex z with
+    | some d, some zb =>
+      let name := String.ofList (zb.map Char.ofNat)
+      let tz := initConfigTZ d.tz (some name)
+      (some { d with tz := tz }, "ok zone=" ++ tz.zone)
+    | _, _ => (st, "bad-op")
   | ["config", bits] =>
     match st, bits.toList with
     | some d, [a, b, c, u, v] =>
